@@ -8,6 +8,7 @@ from twisted.names import dns
 from corr import _dns as D
 from corr import C32 as G          # the structured message generator (valid encodings to mutate)
 
+MODEL_MAX = 6000          # bytes; longer dec/edec/udp/tcp inputs are judged by the oracle only (the model's lists are slow there)
 HEADLINE = "TwistedProps.C33.message_decode_total"   # + tcp_dataReceived_total, tcp_segmentation_invariance, datagram_decode_total
 RULE = ("valid encodings of random messages over every Record_* class (the C32 generator), then: cut at every kind of boundary, "
         "1..4 bytes overwritten (0x00/0xC0/0xFF/offset bytes), RDLENGTH / section counts / label lengths made bogus, compression "
@@ -18,13 +19,27 @@ RULE = ("valid encodings of random messages over every Record_* class (the C32 g
         "incomplete tails, ids present in liveMessages) in EVERY segmentation when short, byte by byte, at every pair of cut points "
         "and in random segmentations (empty segments included) when long, through a fresh DNSProtocol (op 'tcpseg': events, exception, "
         "final length/buffer/liveMessages); datagrams through DNSDatagramProtocol.datagramReceived with liveMessages/resends set "
-        "(op 'udpin'); distinct = (op, mutation kind, outcome class, record types reached)")
+        "(op 'udpin'), the peer address being an IPv4 2-tuple, an IPv6 4-tuple or an empty host; "
+        "added by the white-box mutation audit (harness/mutants/C33): EVERY prefix of a valid encoding of each record type "
+        "('allcuts': the input ends inside every field of every Record_*.decode, OPT options included); for every TYPE each boundary "
+        "value of its first RDATA octet (A6 prefix lengths 0..255, string lengths, label lengths / pointer octets) + 0..40 filler "
+        "octets under right / off-by-one / tiny / huge RDLENGTHs ('rdgrid'); the real encoder's RDATA of every type under its exact "
+        "RDLENGTH, +-1, +-2, 0, 1, 65535 ('rdexact'); names that run through 1..8000 compression pointers (around CPython's "
+        "recursion limit of 1000 and up to the 14-bit offset space), ending in the root, a loop, past the end or a cut pointer, "
+        "in a question or in RDATA ('chain'); names made as long as the message allows - an area of equal octets read as (l+1)/2 "
+        "interleaved chains of l-byte labels joined by pointers, 700 bytes to a 32768-byte TCP frame ('interleaved', oracle-only "
+        f"above {MODEL_MAX} bytes); TCP segments holding 40..1600 (thorough 4600) whole frames, split anywhere, a malformed frame last "
+        "('manyframes'); distinct = (op, mutation kind, outcome class, record types reached)")
 ASSUMES = [
     "a TCP connection is a fresh DNSProtocol fed the segments in order; an exception out of dataReceived ends the connection (the "
     "reactor logs it and calls connectionLost) - tcp_after_error shows that feeding on would hand over nothing more anyway",
     "controller.messageReceived, the callbacks of a pending query's Deferred (whose exceptions the protocols catch and log) and "
     "canceller.cancel() are the consumers of the modelled hand-over events, not part of the model",
-    "a per-input wall time above 2 s counts as non-termination (typical decode time is well under a millisecond)",
+    "a per-input decode time above 2 s counts as non-termination (typical decode time is well under a millisecond; a 32768-byte "
+    "TCP frame built to make one name as long as possible takes about 0.1 s, a 65535-byte one 0.2 s); the time is the CPU time of the decoding thread - "
+    "decoding does no I/O and never waits - so that the verdict does not depend on what else the machine is doing",
+    "the peer address handed to datagramReceived (IPv4 2-tuple, IPv6 4-tuple with flowinfo/scope id, empty host) does not "
+    "influence what the datagram protocol does with a datagram; the model has no address, the cases vary it",
 ]
 TRUSTED = ["CPython BytesIO semantics for short and negative reads, transcribed in readPrecisely/readPreciselyInt"]
 MANIFEST = {
@@ -41,7 +56,12 @@ MANIFEST = {
             "which datagramReceived drops the datagram (tcp_malformed_frame_like_udp, pointer_cycle_in_tcp_stream); datagramReceived "
             "never reaches its 'Unexpected decoding error' clause (datagram_decode_total, datagram_never_unexpected). "
             "Model tied to dns.py by differential runs on mutated encodings (pointer cycles, bogus lengths, every record type) and on "
-            "TCP streams in all segmentations; per-input time and an independent framing reference checked by the oracle.",
+            "TCP streams in all segmentations; per-input time and an independent framing reference checked by the oracle. "
+            "White-box mutation audit (harness/mutants/C33, 13 mutants): every prefix of an encoding of each record type, boundary "
+            "first octets x RDLENGTHs per type, pointer chains beyond the recursion limit, names as long as a message allows, "
+            "hundreds of frames per TCP segment and IPv6 peer addresses are generated in the quick tier. The last class exposed a "
+            "genuine defect - Name.decode copied the whole name for every label: quadratic, a 65535-byte TCP frame took minutes - "
+            "fixed in twisted (Name.decode joins the labels once).",
     "note": "totality of the model; that the model's exception classes are Python's rests on the differential tie (partial in that sense)",
     "technique": "Lean 4 proof (well-founded recursion + exhaustive case analysis of failure modes) + differential tie on mutated inputs",
     "design_ref": "DESIGN.md §7 C33",
@@ -139,6 +159,22 @@ def corpus():
           _seg([], "corpus"), _seg([b""], "corpus"), _seg([fr(good, good), fr(good)], "corpus", live=[1, 7])]
     a += [{"op": "udpin", "mut": "corpus", "data": d.hex(), "live": lv, "resends": rs}
           for d in (b"", good, cyc18, good[:11]) for lv, rs in (([], []), ([1], []), ([], [1]), ([1], [1]), ([2], [3]))]
+    # witnesses of the mutation audit (harness/mutants/C33): one per class that the earlier generator did not reach
+    w = lambda d, op="dec", **k: dict({"op": op, "mut": "corpus-audit", "data": d.hex()}, **k)     # noqa: E731
+    a += [w(_chain(1100, "root")), w(_chain(1100, "loop"), "tcp"), w(_chain(1100, "root", "label", "rd")),     # m01
+          w(_hdr(nq=1) + b"\x01a\xc0"),                                                                        # m02
+          w(_hdr(nad=1) + b"\x00\x00\x29\x10\x00\x00\x00\x80\x00\x00\x06\x00\x01\x00\x00\x00\x02", "edec"),   # m05
+          w(_hdr(nad=1) + b"\x00\x00\xfa\x00\xff\x00\x00\x00\x00\x00\x10\x00" + b"\x00" * 4),                # m08: TSIG cut in its fixed block
+          w(_hdr(nad=1) + b"\x00\x00\x29\x10\x00\x00\x00\x00\x00\x00\x00", "edec"),                            # m09: OPT, RDLENGTH 0
+          w(_hdr(nan=1) + b"\x00\x00\x63\x00\x01\x00\x00\x00\x00\x00\x00"),                                    # SPF, RDLENGTH 0
+          w(_hdr(nan=1) + b"\x00\x00\x26\x00\x01\x00\x00\x00\x00\x00\x14\x88" + b"\x01" * 19),               # m12: A6 prefixLen 136 + 19 octets
+          w(_hdr(nan=1) + b"\x00\x00\x0b\x00\x01\x00\x00\x00\x00\x00\x09\x01\x02\x03\x04"),                  # m13: WKS cut after the address
+          w(_interleaved(2000)), w(_interleaved(16384)), w(_interleaved(32768), "tcp")]                             # quadratic Name.decode (fixed)
+    a += [w(d, "udp", addr=ad) for d in (b"", good[:5], cyc18, good) for ad in ADDRS]                             # m06
+    a += [{"op": "udpin", "mut": "corpus-audit", "data": d.hex(), "live": [], "resends": [], "addr": ad}
+          for d in (good[:5], cyc18) for ad in ADDRS[1:]]
+    one = struct.pack("!H", 12) + good
+    a += [_seg([one * 1100], "corpus-audit"), _seg([one * 1100 + fr(cyc18)], "corpus-audit", live=[1])]             # m07
     return a
 
 
@@ -186,6 +222,148 @@ def _streams(rng):
     return fr(*ps) + tail, list(dict.fromkeys(live))
 
 
+# ---- classes added by the white-box mutation audit (harness/mutants/C33) --------------------------------------
+ADDRS = [["192.0.2.1", 53], ["2001:db8::1", 53, 0, 0], ["fe80::1%eth0", 5353, 0, 2], ["", 0]]
+
+
+def _one_rr_message(rng, t):
+    """a valid encoding holding a question and records of TYPE t (41 = OPT with options, other unknown numbers =
+    UnknownRecord), names compressed against each other"""
+    pool = []
+    m = {"hdr": G._hdr(rng, 0), "q": [[D.hx(G._name(rng, pool, 0)), t if t < 65536 else 255, 1]], "an": [], "ns": [], "ad": []}
+    for sec in rng.choice([["an"], ["an", "ad"], ["ns"]]):
+        own = D.hx(G._name(rng, pool, 0))
+        if t in D.KINDS:
+            r = {"n": own, "t": t, "c": 1, "ttl": 300, "pk": "k", "v": G._vals(rng, t, pool)}
+        else:
+            opts = b"".join(struct.pack("!HH", rng.randrange(20), len(o)) + o for o in
+                            [bytes(rng.randrange(256) for _ in range(rng.choice([0, 1, 4, 8]))) for _ in range(rng.randint(0, 3))])
+            r = {"n": own if t != 41 else "-", "t": t, "c": 1 if t != 41 else 4096, "ttl": 0, "pk": "u",
+                 "v": ["b" + D.hx(opts if t == 41 else bytes(rng.randrange(256) for _ in range(rng.choice([0, 1, 7]))))]}
+        m[sec].append(r)
+    try:
+        return D.build_message(m).toStr()
+    except Exception:
+        return None
+
+
+def _allcuts(rng, types):
+    """EVERY prefix of a valid encoding, for each record type: the input ends inside every field of every Record_*.decode"""
+    for t in types:
+        data = None
+        for _ in range(10):
+            data = _one_rr_message(rng, t)
+            if data is not None and len(data) <= 160:
+                break
+        if data is None:
+            continue
+        for i in range(len(data) + 1):
+            yield {"op": "edec" if t == 41 else "dec", "mut": f"allcuts{t}", "data": data[:i].hex()}
+
+
+def _chain(n, end, step="ptr", where="q"):
+    """a name that runs through n compression pointers before it ends: in the root label ('root'), in a pointer back into
+    the chain ('loop'), in a pointer past the end of the message ('eof') or in a cut pointer ('cut').  step 'ptr': the
+    pointers follow each other; 'label': a one-byte label between two pointers.  The chain lies after the name that enters it."""
+    unit = 2 if step == "ptr" else 4
+    n = min(n, (0x3FF0 - 40) // unit)
+    if where == "q":
+        head = _hdr(nq=1) + b"\xc0\x12\x00\x01\x00\x01"                   # question name = pointer to offset 18
+    else:                                                               # the RDATA of an NS record
+        head = _hdr(nan=1) + b"\x00\x00\x02\x00\x01\x00\x00\x00\x05\x00\x02\xc0\x19"      # RDATA at 23 = pointer to 25
+    base = len(head)
+    body = b"".join((b"\x01a" if step == "label" else b"") + struct.pack("!H", 0xC000 | (base + unit * (i + 1))) for i in range(n))
+    tail = {"root": b"\x00", "loop": struct.pack("!H", 0xC000 | (base + unit * (n // 2))), "eof": b"\xff\xff",
+            "cut": b"\xc0"}[end]
+    return head + bytes(body) + tail
+
+
+def _chains(rng, tier):
+    ns = [0, 1, 2, 60, 400, 900, 980, 990, 1000, 1010, 1100, 1500, 2500, 8000]
+    for n in ns if tier != "quick" else rng.sample(ns[:5], 2) + ns[5:]:
+        for end in (["root", "loop", "eof", "cut"] if tier != "quick" else ["root", rng.choice(["loop", "eof", "cut"])]):
+            step = rng.choice(["ptr", "ptr", "label"])
+            where = rng.choice(["q", "q", "rd"])
+            op = rng.choice(["dec", "dec", "edec", "tcp", "udp"])
+            yield {"op": op, "mut": f"chain-{end}", "data": _chain(n, end, step, where).hex()}
+
+
+def _interleaved(total, l=63):
+    """the most label bytes a name can collect from `total` bytes of message: an area of bytes all equal to l is (l+1)/2
+    disjoint chains of l-byte labels (one per even residue); the tail sends each chain to the start of the next one."""
+    S, w = 12, l + 1
+    N = max(1, (total - S - w) // w)
+    tail = b"".join(struct.pack("!H", 0xC000 | (S + r + 2)) for r in range(0, w - 2, 2)) + b"\x00\x00"
+    return _hdr(nq=1) + bytes([l]) * (w * N) + tail + b"\x00\x01\x00\x01"
+
+
+def _manyframes(rng, tier):
+    good, cyc18 = _hdr(), _hdr(nq=1) + b"\xc0\x0c\x00\x01\x00\x01"
+    one = struct.pack("!H", 12) + good
+    ks = [40, 300, 900, 980, 1000, 1100, 1600] + ([3000, 4600] if tier != "quick" else [])
+    for k in ks:
+        for variant in ("whole", "split", "bad-last"):
+            st = one * k + (struct.pack("!H", 18) + cyc18 + one if variant == "bad-last" else b"")
+            if variant == "split":
+                cuts = sorted(rng.randrange(len(st) + 1) for _ in range(2))
+                chunks = [st[:cuts[0]], st[cuts[0]:cuts[1]], st[cuts[1]:]]
+            else:
+                chunks = [st]
+            yield _seg(chunks, "manyframes", live=rng.choice([[], [1]]))
+
+
+_RD_FILL = [b"\x00", b"\x01", b"\xc0\x0c", b"\xff", b"\x03abc"]
+_RD_TYPES = sorted(D.KINDS) + [41, 0, 300, 65535]
+_RD_NAMEY = [0x00, 0x01, 0x3F, 0x40, 0x7F, 0x80, 0xBF, 0xC0, 0xFF]                    # label length / pointer octets
+_RD_FIRST = {38: [0, 1, 7, 8, 9, 64, 120, 121, 127, 128, 129, 135, 136, 137, 200, 255],                 # A6 prefix length
+             16: [0, 1, 2, 3, 4, 16, 17, 39, 40, 41, 255], 99: [0, 1, 2, 3, 4, 16, 17, 39, 40, 41, 255],    # string lengths
+             13: [0, 1, 2, 3, 4, 16, 17, 39, 40, 41, 255], 41: [0, 1, 0xFF], 44: [0, 1, 2, 0xFF], 11: [0, 1, 0xFF],
+             1: [0, 0xFF], 28: [0, 0xFF], 10: [0, 0xFF], 0: [0, 0xFF], 300: [0, 0xFF], 65535: [0, 0xFF]}
+
+
+def _rdgrid(rng, per=2):
+    """for every TYPE and every boundary value of the first RDATA octet of that type (a prefix length, a string length, a
+    label length or pointer, ...): that octet + k filler octets under an RDLENGTH that is right, off by one, tiny or huge"""
+    for t in _RD_TYPES:
+        for b0 in _RD_FIRST.get(t, _RD_NAMEY):
+            for _ in range(per):
+                k = rng.choice([0, 1, 2, 3, 4, 5, 9, 16, 17, 18, 24, 40])
+                rd = bytes([b0]) + (rng.choice(_RD_FILL) * k)[:k]
+                ln = rng.choice([len(rd)] * 4 + [0, 1, 2, 4, 5, len(rd) + 1, max(0, len(rd) - 1), 0xFFFF])
+                own = rng.choice([b"\x00", b"\xc0\x0c", b"\x01a\x00"])
+                sec = rng.choice(["nan", "nns", "nad"])
+                trail = rng.choice([b"", b"", b"\x00" * 20, b"\x00", b"\x01" * 17])
+                data = (_hdr(**{sec: rng.choice([1, 1, 2])}) + own
+                        + struct.pack("!HHIH", t, rng.choice([1, 1, 4096, 255]), rng.choice([0, 0x8000, 2**32 - 1]), ln) + rd + trail)
+                op = "edec" if t == 41 else rng.choice(["dec", "dec", "edec", "edec", "udp", "tcp"])
+                yield {"op": op, "mut": f"rdgrid{t}", "data": data.hex()}
+
+
+def _rdexact(rng, per=1):
+    """for every record type: a valid RDATA (the real encoder's, uncompressed) under its exact RDLENGTH and under RDLENGTHs that
+    are off by one or two, zero, one, a random smaller value and 65535 - with and without octets after the record"""
+    from io import BytesIO
+    for t in sorted(D.KINDS):
+        for _ in range(per):
+            rd = None
+            for _try in range(10):
+                try:
+                    bio = BytesIO()
+                    D.build_payload({"t": t, "ttl": 0, "pk": "k", "v": G._vals(rng, t, [])}).encode(bio, None)
+                    rd = bio.getvalue()
+                    break
+                except Exception:
+                    continue
+            if rd is None or len(rd) > 300:
+                continue
+            n = len(rd)
+            for ln in sorted({n, max(0, n - 1), n + 1, max(0, n - 2), n + 2, 0, 1, rng.randrange(n + 1), 0xFFFF}):
+                trail = rng.choice([b"", b"", b"\x00" * 12, b"\x05hello", b"\xc0\x0c\x00\x01\x00\x01"])
+                sec = rng.choice(["nan", "nns", "nad"])
+                data = _hdr(**{sec: rng.choice([1, 1, 2])}) + b"\x00" + struct.pack("!HHIH", t, 1, 60, ln) + rd + trail
+                yield {"op": rng.choice(["dec", "dec", "edec", "udp", "tcp"]), "mut": f"rdexact{t}", "data": data.hex()}
+
+
 def generate(rng, tier):
     n = 2500 if tier == "quick" else 80000
     for i in range(n):
@@ -200,7 +378,26 @@ def generate(rng, tier):
         else:
             kind, data = "valid", _valid(rng)
         op = rng.choice(["dec", "dec", "dec", "dec", "edec", "edec", "udp", "tcp"])
-        yield {"op": op, "mut": kind, "data": data.hex()}
+        c = {"op": op, "mut": kind, "data": data.hex()}
+        if op == "udp":
+            c["addr"] = rng.choice(ADDRS)
+        yield c
+    # --- classes added by the mutation audit: every prefix of a valid encoding of each record type; boundary RDATA under
+    # right/wrong RDLENGTHs for each type; names through hundreds/thousands of pointers; names made of interleaved label chains
+    types = _RD_TYPES if tier != "quick" else sorted(D.KINDS) + [41, 300]
+    for rep in range(1 if tier == "quick" else 6):
+        yield from _allcuts(rng, types)
+    for c in list(_rdgrid(rng, 2 if tier == "quick" else 30)) + list(_rdexact(rng, 1 if tier == "quick" else 20)):
+        if c["op"] == "udp":
+            c["addr"] = rng.choice(ADDRS)
+        yield c
+    yield from _chains(rng, tier)
+    # the largest input is 32768 bytes: the linear decoder needs ~0.1 s of CPU for it (a 10x margin to the limit on a busy
+    # machine), one that copies the name per label needs minutes; a 65535-byte frame (0.2 s) was measured by hand
+    for total, l in [(700, 63), (2000, 63), (2000, 191), (1500, 3), (16384, 63), (32768, 63)] + ([(24000, 191), (32768, 191)] if tier != "quick" else []):
+        for op in ("dec", "tcp") if total > 2000 else ("dec", "edec", "udp", "tcp"):
+            yield {"op": op, "mut": f"interleaved{total}", "data": _interleaved(total, l).hex()}
+    yield from _manyframes(rng, tier)
     for i in range(n // 50):
         data = _valid(rng)
         frame = struct.pack("!H", len(data)) + data
@@ -239,7 +436,7 @@ def generate(rng, tier):
         mid = struct.unpack("!H", data[:2])[0] if len(data) >= 2 else 0
         live = rng.choice([[], [mid], [mid + 1], [mid, 9]])
         resends = rng.choice([[], [mid], [mid + 1]])
-        yield {"op": "udpin", "mut": kind, "data": data.hex(), "live": live, "resends": resends}
+        yield {"op": "udpin", "mut": kind, "data": data.hex(), "live": live, "resends": resends, "addr": rng.choice(ADDRS)}
 
 
 def model_line(c):
@@ -248,6 +445,8 @@ def model_line(c):
         return f"tcp {ids(c.get('live', []))} " + (";".join(ch or "-" for ch in c["chunks"]) or ".")
     if c["op"] == "udpin":
         return f"udp {ids(c['live'])} {ids(c['resends'])} " + (c["data"] or "-")
+    if len(c["data"]) > 2 * MODEL_MAX:
+        return None                                   # oracle-only: the Lean lists are too slow for names of megabytes
     op = "edec" if c["op"] == "edec" else "dec"
     return f"{op} " + (c["data"] or "-")
 
@@ -308,7 +507,16 @@ def _observe_log(f, messages=False):
 
 _last_t = [0.0]
 _hangs = [0]
-HANG_S = 3.0
+HANG_S = 3.0          # CPU seconds of the decoding thread
+WALL_CAP_S = 120.0    # whatever the machine is doing: no input is waited for longer than this
+
+
+def _thread_cpu(th):
+    """CPU seconds consumed so far by a running thread (None once it is gone)"""
+    try:
+        return time.clock_gettime(time.pthread_getcpuclockid(th.ident))
+    except Exception:      # noqa: BLE001 - the thread has just finished
+        return None
 
 
 def run_impl(c):
@@ -318,20 +526,35 @@ def run_impl(c):
         return "!hang (skipped: three inputs already hung)"
     box = []
 
+    cpu = [0.0]
+
     def work():
+        c0 = time.thread_time()
         try:
             box.append(_run(c, c["op"]))
         except BaseException as e:      # noqa: BLE001 - the class is the observable
             box.append(f"!raised {type(e).__name__}")
+        cpu[0] = time.thread_time() - c0
     t0 = time.time()
     th = threading.Thread(target=work, daemon=True)
     th.start()
     th.join(HANG_S)
-    _last_t[0] = time.time() - t0
-    if th.is_alive():
-        _hangs[0] += 1
-        return "!hang"
+    # The time limit is on the CPU time of the decoding thread (decoding does no I/O and never waits), so that a busy
+    # machine cannot turn a millisecond decode into a "hang": past HANG_S of wall time the thread's CPU clock is polled.
+    while th.is_alive():
+        used = _thread_cpu(th)
+        if (used is not None and used > HANG_S) or time.time() - t0 > WALL_CAP_S:
+            _last_t[0] = used or 0.0
+            _hangs[0] += 1
+            return "!hang"
+        th.join(0.2)
+    _last_t[0] = cpu[0]
     return box[0]
+
+
+def _addr(c):
+    """the peer address handed to datagramReceived: (host, port) for IPv4, (host, port, flowinfo, scopeid) for IPv6"""
+    return tuple(c.get("addr") or ("192.0.2.1", 53))
 
 
 def _run(c, op):
@@ -357,7 +580,7 @@ def _run(c, op):
         for i in c["resends"]:
             p.resends[i] = 1
         data = bytes.fromhex(c["data"])
-        logged = _observe_log(lambda: p.datagramReceived(data, ("192.0.2.1", 53)), messages=True)
+        logged = _observe_log(lambda: p.datagramReceived(data, _addr(c)), messages=True)
         if ctl.events:
             return ctl.events[0]
         for kind, txt in logged:
@@ -387,7 +610,7 @@ def _run(c, op):
     if op == "udp":
         p = dns.DNSDatagramProtocol(ctl)
         p.startProtocol()
-        unexpected = _observe_log(lambda: p.datagramReceived(data, ("192.0.2.1", 53)))
+        unexpected = _observe_log(lambda: p.datagramReceived(data, _addr(c)))
         if unexpected:
             return "!raised " + unexpected[0]          # "Unexpected decoding error": the class that was caught
         if ctl.got:
@@ -444,9 +667,10 @@ def _tcp_reference(c):
 def oracle(c, out):
     t, _last_t[0] = _last_t[0], 0.0
     if out == "!hang":
-        return {"key": "decode-does-not-terminate", "detail": f"{c['op']} still running after {HANG_S}s on {str(c.get('data'))[:200]}"}
+        return {"key": "decode-does-not-terminate",
+                "detail": f"{c['op']} still running after {HANG_S}s of CPU time on {len(c.get('data', ''))//2} bytes {str(c.get('data'))[:200]}"}
     if t > 2.0:
-        return {"key": "slow-decode", "detail": f"{c['op']} took {t:.1f}s on {len(c.get('data', ''))//2} bytes"}
+        return {"key": "slow-decode", "detail": f"{c['op']} took {t:.1f}s of CPU time on {len(c.get('data', ''))//2} bytes"}
     if c["op"] == "tcpseg" and _is_trace(out):
         parts = out.split(" | ")
         for ev in parts:
